@@ -894,6 +894,15 @@ func (interp *Interpreter) cfg(root *node, sc *scope, importPath, pkgName string
 			}
 
 		case assignXStmt:
+			if isCommRecvAssign(n) {
+				// The receive operation is performed by select, which stores the value at the
+				// location of the receive expression and the status at the location of the
+				// statement. The operands are evaluated, then assigned, in the selected clause.
+				wireChild(n, unaryExpr)
+				n.findex = sc.add(sc.getType("bool"))
+				n.gen = assignFromSelect
+				break
+			}
 			wireChild(n)
 			l := len(n.child) - 1
 			switch lc := n.child[l]; lc.kind {
@@ -2856,10 +2865,11 @@ func (n *node) isType(sc *scope) bool {
 }
 
 // isCommRecvAssign returns true if node n is the communication operation of a
-// select clause, assigning the received value to an existing operand: x = <-c.
-// Select performs the receive operation, then the assignment is executed.
+// select clause, assigning the received value to existing operands: x = <-c
+// or x, ok = <-c. Select performs the receive operation, then the assignment
+// is executed.
 func isCommRecvAssign(n *node) bool {
-	return n.kind == assignStmt && n.anc.kind == commClause && n.anc.child[0] == n && n.lastChild().action == aRecv
+	return (n.kind == assignStmt || n.kind == assignXStmt) && n.anc.kind == commClause && n.anc.child[0] == n && n.lastChild().action == aRecv
 }
 
 // wireChild wires AST nodes for CFG in subtree.
